@@ -6,7 +6,7 @@
 (* wraps the tensors in the response envelope, feeds the real library, and *)
 (* compares each output.                                                   *)
 (***************************************************************************)
-EXTENDS Slice, Smoothing, Json
+EXTENDS Slice, Pairwise, Json
 
 CONSTANTS
   Scn,       \* scenario name (string), echoed in every line
@@ -127,7 +127,9 @@ C14_2D(tk) ==
     rows_scale_mean_margin      |-> ScaleMarginMean(tk, DimC),
     columns_scale_mean_margin   |-> ScaleMarginMean(tk, DimR),
     rows_scale_median_margin    |-> ScaleMarginMedian(tk, DimC),
-    columns_scale_median_margin |-> ScaleMarginMedian(tk, DimR) ]
+    columns_scale_median_margin |-> ScaleMarginMedian(tk, DimR),
+    \* read for its side effects only (it shares cached arrays with the scale means)
+    columns_scale_mean_pairwise_indices |-> AnyOrder ]
 C14_1D(tk) ==
   [ scale_mean    |-> IF SNone(tk) THEN NoneV ELSE Num0(Div(R(SScaleS1(tk)), R(SScaleN(tk)))),
     scale_median  |-> IF SNone(tk) THEN NoneV ELSE Num0(MedianOf(DimR, SScaleCnt(tk))),
@@ -204,6 +206,20 @@ C20_2D_Y(tk) ==
 C20_1D_Y(tk) ==
   [ smoothed_means |-> Num1(SSmoothedMeans(tk, RE(tk))) ]
 
+\* one t / p matrix per selected display column, keyed "..._t_stats__<i>" (0-based)
+C13_2D(tk) ==
+  LET RS == RE(tk)  CS == CE(tk) IN
+  [ pairwise_t_stats |-> [sel \in 1..Len(CS) |-> PwTMat(tk, RS, CS, sel)],
+    \* the older accessor pairwise_significance_tests[i].t_stats states the same comparison
+    legacy_pairwise_t_stats |-> [sel \in 1..Len(CS) |-> PwTMatLegacy(tk, RS, CS, sel)],
+    pairwise_p_vals  |-> [sel \in 1..Len(CS) |-> PwPMat(tk, RS, CS, sel)],
+    pairwise_indices |-> PwIdx(tk, RS, CS) ]
+C13_2D_Y(tk) ==
+  LET RS == RE(tk)  CS == CE(tk) IN
+  [ pairwise_means_t_stats |-> [sel \in 1..Len(CS) |-> PwMeansTMat(tk, RS, CS, sel)],
+    pairwise_means_p_vals  |-> [sel \in 1..Len(CS) |-> PwMeansPMat(tk, RS, CS, sel)],
+    pairwise_means_indices |-> PwMeansIdx(tk, RS, CS) ]
+
 C11_1D(tk) ==
   [ table_proportion_stddevs |-> Sqrt1(SVarV(tk, RE(tk))),
     table_proportion_stderrs |-> Sqrt1(SSE2V(tk, RE(tk))),
@@ -257,6 +273,7 @@ Part(tk) ==
     [] Family = "c08" /\ ND > 1 -> C08_2D(tk)
     [] Family = "c20" /\ ND = 1 -> C20_1D_Y(tk)
     [] Family = "c20" /\ ND > 1 -> IF HasY THEN C20_2D(tk) @@ C20_2D_Y(tk) ELSE C20_2D(tk)
+    [] Family = "c13" /\ ND > 1 -> IF HasY THEN C13_2D_Y(tk) ELSE C13_2D(tk)
     [] Family = "c04" /\ ND = 1 -> IF HasY THEN C04_1D(tk) @@ C01_1D_Y(tk) ELSE C04_1D(tk)
     [] Family = "c04" /\ ND > 1 -> IF HasY THEN C04_2D(tk) @@ C01_2D_Y(tk) ELSE C04_2D(tk)
 
